@@ -47,6 +47,30 @@ fn ensure_file_removed(path: &Path) -> Result<()> {
     }
 }
 
+/// Sets the access and/or modification times of the file at `path`.
+///
+/// On Unix, we open the file read-only ourselves and update the
+/// times through that handle.  `filetime`'s path-based setters retry
+/// a failed read-only `open` in write-only mode and report the
+/// *second* error: when a concurrent writer publishes the (read-only)
+/// file between the two attempts, a benign `ENOENT` race would
+/// otherwise surface as a spurious `EACCES`.
+#[cfg(target_family = "unix")]
+fn set_path_times(path: &Path, atime: Option<FileTime>, mtime: Option<FileTime>) -> Result<()> {
+    let file = std::fs::File::open(path)?;
+    filetime::set_file_handle_times(&file, atime, mtime)
+}
+
+#[cfg(not(target_family = "unix"))]
+fn set_path_times(path: &Path, atime: Option<FileTime>, mtime: Option<FileTime>) -> Result<()> {
+    match (atime, mtime) {
+        (Some(atime), Some(mtime)) => filetime::set_file_times(path, atime, mtime),
+        (Some(atime), None) => filetime::set_file_atime(path, atime),
+        (None, Some(mtime)) => filetime::set_file_mtime(path, mtime),
+        (None, None) => Ok(()),
+    }
+}
+
 /// Moves the file at `path` to the back of the second chance list.
 fn move_to_back_of_list(path: &Path) -> Result<()> {
     let mtime = FileTime::now();
@@ -59,7 +83,7 @@ fn move_to_back_of_list(path: &Path) -> Result<()> {
             .saturating_sub(ENFORCED_ATIME_MTIME_DELTA_SEC),
         mtime.nanoseconds(),
     );
-    filetime::set_file_times(path, atime, mtime)
+    set_path_times(path, Some(atime), Some(mtime))
 }
 
 /// Marks the file at `path` as read-only.
@@ -89,7 +113,7 @@ fn set_read_only(path: &Path) -> Result<()> {
 /// EFS).
 pub fn touch(path: impl AsRef<Path>) -> Result<bool> {
     fn run(path: &Path) -> Result<bool> {
-        match filetime::set_file_atime(path, FileTime::now()) {
+        match set_path_times(path, Some(FileTime::now()), None) {
             Ok(()) => Ok(true),
             // It's OK if the file we're trying to touch was removed:
             // things do disappear from caches.
